@@ -129,6 +129,11 @@ func cmdCheck(args []string) int {
 		if c.Trusted {
 			continue
 		}
+		if len(c.Props) == 0 && len(c.SafetyProps) == 0 && len(c.TermProps) == 0 {
+			// a contract that no property owns would be assumed by callers and checked by nobody
+			fmt.Printf("BROKEN: the contract of %s is neither trusted nor tagged with a property: no check would ever verify it\n", k)
+			os.Exit(2)
+		}
 		if *prop != "" && !c.Props[*prop] && !c.SafetyProps[*prop] && !c.TermProps[*prop] {
 			inc := false
 			for _, ip := range propIncludes[*prop] {
